@@ -202,8 +202,11 @@ pub fn record_mmap(seed: u64, thorough: bool, path: &str) -> Value {
                 }
             }
             while let Some((id, m)) = live.pop() {
-                drop(m);
-                out.push(json!({"e": "m_drop", "id": id, "mapped": mapped_bytes(&fname)}));
+                // a map goes away at the end of a scope - or while a panic unwinds through its owner
+                let how = if (fi + cyc + id) % 3 == 0 { "unwind" } else { "scope" };
+                if how == "unwind" { let _ = std::panic::catch_unwind(std::panic::AssertUnwindSafe(move || { let _owner = m; panic!("unwinding through the owner of a map") })); }
+                else { drop(m); }
+                out.push(json!({"e": "m_drop", "id": id, "how": how, "mapped": mapped_bytes(&fname)}));
                 events += 1;
             }
             if let Some((idx, val)) = written {
@@ -212,6 +215,37 @@ pub fn record_mmap(seed: u64, thorough: bool, path: &str) -> Value {
                 out.push(json!({"e": "m_written", "in_file": ok}));
                 std::fs::write(&fname, &content).unwrap();
             }
+        }
+        // the same file under other names that open() accepts: through a symbolic link, with . and .. components, relative to the
+        // working directory, and - last, because the file is unlinked for it - through /proc/self/fd of an open descriptor
+        if *size > 0 && size % 8 == 0 && fi % 2 == 1 {
+            let dir = fname.parent().unwrap().to_path_buf();
+            let base = fname.file_name().unwrap().to_os_string();
+            let link = scratch("verif-mmap-link");
+            let _ = std::os::unix::fs::symlink(&fname, &link);
+            let dotted = dir.join(".").join("..").join(dir.file_name().unwrap()).join(&base);
+            let cwd = std::env::current_dir().unwrap();
+            let keep = std::fs::File::open(&fname).unwrap();
+            let procfd = PathBuf::from(format!("/proc/self/fd/{}", std::os::unix::io::AsRawFd::as_raw_fd(&keep)));
+            for (vi, variant) in ["symlink", "dotted", "relative", "procfd"].iter().enumerate() {
+                let name: PathBuf = match *variant { "symlink" => link.clone(), "dotted" => dotted.clone(), "relative" => PathBuf::from(&base), _ => procfd.clone() };
+                if *variant == "relative" { std::env::set_current_dir(&dir).unwrap(); }
+                if *variant == "procfd" { std::fs::remove_file(&fname).unwrap(); }
+                let mode = if vi % 2 == 0 { MappingMode::ReadOnly } else { MappingMode::Mutable };
+                let r = guarded(|| MemoryMap::new(&name, mode));
+                if *variant == "relative" { std::env::set_current_dir(&cwd).unwrap(); }
+                let (res, len, slice_eq, m) = match r {
+                    Ok(Ok(m)) => { let len = m.len(); let eq = guarded(|| { let s: &[u64] = m.as_ref(); s.len() == size / 8 && s.iter().enumerate().all(|(i, w)| w.to_le_bytes() == content[8 * i..8 * i + 8]) }).unwrap_or(false); ("ok", len, eq, Some(m)) },
+                    Ok(Err(_)) => ("err", 0, true, None),
+                    Err(_) => ("panic", 0, false, None),
+                };
+                out.push(json!({"e": "m_new", "exists": true, "size": size, "mode": format!("{:?}", mode), "res": res, "len": len, "slice_eq": slice_eq, "mapped": mapped_bytes(&fname), "id": 1, "name": variant}));
+                drop(m);
+                out.push(json!({"e": "m_drop", "id": 1, "how": "scope", "mapped": mapped_bytes(&fname)}));
+                events += 2;
+            }
+            drop(keep);
+            let _ = std::fs::remove_file(&link);
         }
         let _ = std::fs::remove_file(&fname);
     }
